@@ -201,6 +201,12 @@ def run_l0_many_hosts(ctx):
             return r
 
         hosts = [(f"host{j}.example", 1965 + (j % 3)) for j in range(n)]
+        # (hosts given as address literals, in the spellings a URL may carry: whatever key the store derives, it
+        # derives the same one when it writes a pin and when it looks one up)
+        # (all different hosts under ANY reading: no two of them are spellings of one address or name)
+        lits = [f"0:0:0:0:0:0:0:{j + 1:x}" for j in range(12)] + [f"::00{j + 0x21:x}" for j in range(8)] + [f"2001:DB8::{j + 1:X}" for j in range(8)] + [f"::ffff:127.0.1.{j + 1}" for j in range(6)] + \
+               [f"127.0.0.{j + 1}" for j in range(6)] + [f"Upper{j}.Example" for j in range(6)] + [f"dotted{j}.example." for j in range(6)]
+        hosts = [(h, 1965) for h in lits] + hosts
         for j, h in enumerate(hosts):
             c = names[j % 4]
             ask(h, c, "first contact")
